@@ -46,11 +46,11 @@ type fScope struct {
 type fCase struct {
 	Kind   string                       `json:"kind"` // checker | select | sub
 	Imm    bool                         `json:"imm"`
-	Pop    []string                     `json:"pop"`   // backend repositories given the standard content (TLC cases)
-	Pre    []Op                         `json:"pre"`   // backend-level calls made directly on the registry beforehand
-	Pol    map[string]map[string]string `json:"pol"`   // checker: name -> kind -> "ok" | error identity
-	Allow  []string                     `json:"allow"` // select: names allowed
-	Scope  fScope                       `json:"scope"` // auth scope in the caller's context
+	Pop    []string                     `json:"pop"`    // backend repositories given the standard content (TLC cases)
+	Pre    []Op                         `json:"pre"`    // backend-level calls made directly on the registry beforehand
+	Pol    map[string]map[string]string `json:"pol"`    // checker: name -> kind -> "ok" | error identity
+	Allow  []string                     `json:"allow"`  // select: names allowed
+	Scope  fScope                       `json:"scope"`  // auth scope in the caller's context
 	Scopes []fScope                     `json:"scopes"` // optional: per-op scopes (random histories)
 	Ops    []Op                         `json:"ops"`
 }
@@ -104,7 +104,9 @@ type scopeCap struct {
 	seen []ev
 }
 
-func (s *scopeCap) note(ctx context.Context) { s.seen = append(s.seen, projScope(ociauth.ScopeFromContext(ctx))) }
+func (s *scopeCap) note(ctx context.Context) {
+	s.seen = append(s.seen, projScope(ociauth.ScopeFromContext(ctx)))
+}
 func (s *scopeCap) take() []ev {
 	out := s.seen
 	if out == nil {
@@ -478,8 +480,9 @@ func randScope(rnd *rand.Rand, names []string, prefix string, outside []string) 
 	return fScope{Triples: tr}
 }
 
-// hostileOps: one random method called with hostile names.
-func hostileOp(rnd *rand.Rand, cat *Catalog, prefix string, outside []string) Op {
+// hostileOp: one random method called with hostile names.  Upload sessions it starts get
+// identifiers of their own (fresh[0] counts them), since a hostile name can be a valid one.
+func hostileOp(rnd *rand.Rand, cat *Catalog, prefix string, outside []string, fresh *int) Op {
 	var blobs, mans []string
 	for _, c := range cat.Contents {
 		if c.Man {
@@ -509,9 +512,11 @@ func hostileOp(rnd *rand.Rand, cat *Catalog, prefix string, outside []string) Op
 	case 7:
 		return Op{Op: "PushBlob", R: h(), C: b, DD: b, DS: len(cat.byID[b].Data)}
 	case 8:
-		return Op{Op: "PushBlobChunked", R: h(), U: cat.Uploads[len(cat.Uploads)-1]}
+		*fresh++
+		return Op{Op: "PushBlobChunked", R: h(), U: fmt.Sprintf("h%d", *fresh)}
 	case 9:
-		return Op{Op: "Resume", R: h(), U: cat.Uploads[len(cat.Uploads)-2], Off: -1}
+		*fresh++
+		return Op{Op: "Resume", R: h(), U: fmt.Sprintf("h%d", *fresh), Off: -1}
 	case 10:
 		if rnd.Intn(2) == 0 {
 			return Op{Op: "MountBlob", From: h(), R: pick(cat.Repos), C: b}
@@ -752,10 +757,12 @@ func filterCmd(args []string) error {
 			case "sub":
 				// interleave calls with hostile names, and give every call a scope of its own
 				var mixed []Op
+				fresh := 0
 				for _, op := range ops {
 					mixed = append(mixed, op)
 					if rnd.Intn(4) == 0 {
-						mixed = append(mixed, hostileOp(rnd, cat, *prefix, outside))
+						mixed = append(mixed, hostileOp(rnd, cat, *prefix, outside, &fresh))
+
 					}
 				}
 				ops = mixed
@@ -781,6 +788,19 @@ func filterCmd(args []string) error {
 			}
 		}
 		cat.Repos = sortedKeys(view)
+	}
+	for _, c := range cases {
+		for _, op := range c.Ops {
+			if strings.HasPrefix(op.U, "h") {
+				known := false
+				for _, u := range cat.Uploads {
+					known = known || u == op.U
+				}
+				if !known {
+					cat.Uploads = append(cat.Uploads, op.U)
+				}
+			}
+		}
 	}
 	back := *cat
 	back.Repos = sortedKeys(backend)
